@@ -324,6 +324,58 @@ class Report:
         known = load_findings()
         self.known = [f for f in known.get("findings", []) if f["property"] == prop]
 
+    def run_probes(self):
+        """Every recorded finding that carries a `probe` (files, argv, env and what shows the defect) is run against the binary
+        of this run: if the defect is still there it is reported under its signature - a KNOWN-FINDING line - and if it is
+        gone nothing is printed.  The probe is the finding's own input, nothing is added to the file at run time."""
+        import re as _re
+        n = 0
+        for f in self.known:
+            pr = f.get("probe")
+            if not pr:
+                continue
+            n += 1
+            with scratch("probe") as d:
+                for rel, text in (pr.get("files") or {}).items():
+                    path = os.path.join(d, rel)
+                    os.makedirs(os.path.dirname(path), exist_ok=True)
+                    with open(path, "w", newline="") as fh:
+                        fh.write(text)
+                for rel in pr.get("dirs") or []:
+                    os.makedirs(os.path.join(d, rel), exist_ok=True)
+                nest = pr.get("nest")
+                if nest:      # the same file in a chain of nested directories
+                    cur = d
+                    for _ in range(nest["depth"]):
+                        with open(os.path.join(cur, nest["file"]), "w") as fh:
+                            fh.write(nest["text"])
+                        cur = os.path.join(cur, nest["dir"])
+                        os.makedirs(cur, exist_ok=True)
+                env = dict(BASE_ENV)
+                env.update({"HOME": d, "TMPDIR": d})
+                env.update(pr.get("env") or {})
+                try:
+                    q = subprocess.run([JUST] + pr["argv"], cwd=os.path.join(d, pr.get("cwd", "")), env=env,
+                                       input=(pr.get("stdin") or "").encode(), stdout=subprocess.PIPE, stderr=subprocess.PIPE, timeout=30)
+                    rc, out, err = q.returncode, q.stdout.decode("utf-8", "replace"), q.stderr.decode("utf-8", "replace")
+                except subprocess.TimeoutExpired:
+                    rc, out, err = None, "", "timeout"
+            sh = pr.get("shows") or {}
+            still = True
+            if "exit" in sh and rc != sh["exit"]:
+                still = False
+            if "exit_in" in sh and rc not in sh["exit_in"]:
+                still = False
+            if "stdout_not_re" in sh and _re.search(sh["stdout_not_re"], out):
+                still = False
+            if "stdout_re" in sh and not _re.search(sh["stdout_re"], out):
+                still = False
+            if "stderr_re" in sh and not _re.search(sh["stderr_re"], err):
+                still = False
+            if still:
+                self.failure(f["signature"], f.get("description", ""), {"probe": pr, "observed": {"exit": rc, "stdout": out[-400:], "stderr": err[-400:]}})
+        self.coverage["known_finding_probes"] = n
+
     def match_known(self, signature):
         for f in self.known:
             if f["signature"] == signature:
